@@ -12,12 +12,16 @@ import (
 var registry = map[string]hlib.RunFn{}
 
 func main() {
-	if len(os.Args) < 3 && !(len(os.Args) == 2 && (os.Args[1] == "C16ref" || os.Args[1] == "C11ref")) {
+	if len(os.Args) < 3 && !(len(os.Args) == 2 && (os.Args[1] == "C16ref" || os.Args[1] == "C11ref" || os.Args[1] == "C16list")) {
 		fmt.Fprintln(os.Stderr, "usage: h <property> run|replay [flags]")
 		os.Exit(2)
 	}
 	if os.Args[1] == "C16ref" {
 		refMain()
+		return
+	}
+	if os.Args[1] == "C16list" {
+		c16ListMain()
 		return
 	}
 	if os.Args[1] == "C11ref" {
